@@ -48,41 +48,59 @@ def compare_interpolation(chk, cases, info, verbose=False):
 
 def run(chk):
     chk.coq_obligations()
-    n = chk.n(110, 1500)
-    cases = c06.corpus(2) + [dw.gen_case(chk.rng, chk.tier, 2) for _ in range(n)]
+    n = chk.n(100, 1500)
+    nd = chk.n(600, 4000)
+    ni = chk.n(700, 6000)
+    ni2 = chk.n(150, 1500)
+    cases = (c06.corpus(2) + [dw.gen_case(chk.rng, chk.tier, 2) for _ in range(n)]
+             + [dw.gen_case_deep(chk.rng, chk.tier, 1, lift_bias=0.5) for _ in range(nd)]
+             + [dw.gen_case_install(chk.rng, chk.tier, 1) for _ in range(ni)]
+             + [dw.gen_case_install(chk.rng, chk.tier, 2) for _ in range(ni2)])
     info = c06.evaluate(chk, cases, 2, FIELDS, PROP, extra_oracle=dw.oracle_state_c03)
     compare_interpolation(chk, cases, info)
     keys, samples = [], []
+    seen_fam = set()
     for c, inf in zip(cases, info):
         if inf is None:
             continue
         r = inf['result']
+        if 'exc' in r:
+            continue
         last = r['states'][-1]
-        npts = sum(len(p[1]) for p in last['points'])
-        chk.count('component_grids', len(last['points']))
-        chk.count('component_points', npts)
+        fam = c.get('family') or 'mixed'
+        chk.count('component_grids', len(last['scheme']))
+        if 'points' in last:
+            chk.count('component_points', sum(len(p[1]) for p in last['points']))
+        chk.count('stripes_compared', sum(len(per) for s_ in r['states'] for per in s_.get('stripes', [])))
         if 'interp' in r:
             worst, wp, cnt = r['interp']
             chk.count('interpolation_points', cnt)
             if worst > INTERP_TOL:
-                chk.violation('oracle:C03/interpolation', 'interpolant-differs-at-grid-point', dict(rebalancing=c['rebalancing']),
+                chk.violation('oracle:C03/interpolation', 'interpolant-differs-at-grid-point',
+                              dict(rebalancing=c['rebalancing'], start='installed-state' if c.get('install') else 'initial-state'),
                               dict(c, bens=c06.jsonable_bens(r['bens']), steps=len(r['bens'])),
                               dict(worst_error=worst, point=wp), failing_input=True)
         nsplit = sum(len(s) for st in r['selected'] for s in st)
-        if len(r['bens']) >= 1 and nsplit >= 2 and len(last['scheme']) >= 3:
-            keys.append((c['dim'], c['lmin'], c['lmax'], c['version'], c['rebalancing'], c['boundary'], str(r['selected'])))
-        if len(samples) < 3 and len(r['bens']) >= 2:
-            samples.append(dict(case={k: c[k] for k in ('dim', 'lmin', 'lmax', 'version', 'rebalancing', 'boundary')},
+        if len(r['bens']) >= 1 and (nsplit >= 2 or fam == 'install') and len(last['scheme']) >= 3:
+            keys.append((fam, c['dim'], c['lmin'], c['lmax'], c['version'], c['rebalancing'], c['boundary'], str(r['selected']),
+                         str((c.get('install') or {}).get('trees'))))
+        if fam not in seen_fam and len(r['bens']) >= (2 if fam != 'install' else 1):
+            seen_fam.add(fam)
+            samples.append(dict(family=fam, case={k: c[k] for k in ('dim', 'lmin', 'lmax', 'version', 'rebalancing', 'boundary')},
                                 split_positions_per_step=r['selected'], final_lmax=last['lmax'],
                                 scheme=str(last['scheme'])[:300], stripes_dim0=str(last['stripes'][0])[:300]))
     chk.record_cases(len(cases), keys,
-                     'scripted dimension-wise histories (as C06; d=4 only with lmax 2); after every step stripes for every (d,l), stripes and '
-                     'points of every component grid compared exactly with the model; non-trivial = >=2 splits and >=3 component grids; '
-                     'distinct by options and split positions', samples)
+                     'scripted dimension-wise histories in the three families of C06 (mixed: d 2..4, public API, stripes + points + interpolant; '
+                     'deep: d=2, lmin 1..3, 8-16 directly driven steps, stripes of every (d,l) and of every component; install: 1-3 steps from '
+                     'randomly constructed valid deep states, stripes (part of them also points + interpolant)); after every step stripes for '
+                     'every (d,l), stripes and (where observed) points of every component grid compared exactly with the model; '
+                     'non-trivial = >=2 splits (install: >=1 step) and >=3 component grids; distinct by options, installed trees and split positions',
+                     samples)
 
 
 def replay(chk, rep):
-    c = dict(rep['case'], what=2)
+    c = dict(rep['case'])
+    c['what'] = max(1, c.get('what', 2))
     info = c06.evaluate(chk, [c], 2, FIELDS, PROP, extra_oracle=dw.oracle_state_c03)
     inf = info[0]
     if inf is None:
@@ -90,6 +108,9 @@ def replay(chk, rep):
         return 1
     r = inf['result']
     rc = 0
+    if 'exc' in r:
+        print('step', r['exc'][3], 'implementation raised', r['exc'][:3])
+        return 1
     for step, s in enumerate(r['states']):
         why = dw.oracle_state_c06(c, s) or dw.oracle_state_c03(c, s)
         print('step', step, 'sizes', [len(t) for t in s['trees']], 'lmax', s['lmax'], 'components', len(s['scheme']),
